@@ -32,7 +32,7 @@ def poly_expr(draw, xs, us, ps, unsupported=None):
     terms = []
     n = draw(st.integers(1, 3))
     for _ in range(n):
-        kind = gen.weighted(draw, [("lin", 4), ("prod", 2), ("sq", 2), ("der", 2), ("inert", 2), ("xder", 1)])
+        kind = gen.weighted(draw, [("lin", 4), ("prod", 2), ("sq", 2), ("der", 2), ("inert", 2), ("xder", 1), ("affprod", 2), ("inert_minus", 1)])
         c = E.C(draw(gen.coef()))
         a = draw(st.sampled_from(xs))
         if kind == "lin":
@@ -45,6 +45,13 @@ def poly_expr(draw, xs, us, ps, unsupported=None):
             t = ["*", c, ["infder", a]]
         elif kind == "xder":
             t = ["*", c, ["*", a, ["infder", draw(st.sampled_from(xs))]]]
+        elif kind == "affprod":
+            # product of affine factors written the way users write them: (c1 - x)*(c2 + y)
+            f1 = [draw(st.sampled_from(["-", "+"])), E.C(draw(gen.small())), a]
+            f2 = [draw(st.sampled_from(["-", "+"])), draw(st.sampled_from(xs)), E.C(draw(gen.small()))]
+            t = ["*", f1, f2] if draw(st.booleans()) else ["*", c, f1]
+        elif kind == "inert_minus":
+            t = ["-", ["inert", draw(st.sampled_from(us + ps))], a]
         elif kind == "inert":
             inner = draw(st.sampled_from(xs + us))
             t = ["*", ["*", c, ["inert", inner]], a]
@@ -61,7 +68,17 @@ def poly_expr(draw, xs, us, ps, unsupported=None):
         terms.append(["*", E.C(draw(st.sampled_from([2.0, -2.0, 1.5]))), ["t"]])
     e = terms[0]
     for t in terms[1:]:
-        e = ["+", e, t]
+        e = [draw(st.sampled_from(["+", "+", "-"])), e, t]
+    # constants on either side of the polynomial part, and negation
+    w = draw(st.integers(0, 5))
+    if w == 0:
+        e = ["-", E.C(draw(gen.small())), e]
+    elif w == 1:
+        e = ["-", e, E.C(draw(gen.small()))]
+    elif w == 2:
+        e = ["neg", e]
+    elif w == 3:
+        e = ["+", E.C(draw(gen.small())), e]
     return e
 
 
